@@ -227,7 +227,7 @@ def _parse_output(res):
     if "Model checking completed. No error has been found." in out or "Finished in" in out and "Error:" not in out:
         res.finished = True
     m = re.search(r'Error: (Invariant \S+ is violated|Action property \S+ is violated|Temporal properties were violated|'
-                  r'Deadlock reached|The postcondition.*|.*is violated.*)', out)
+                  r'Temporal propert[^\n]*violated|Deadlock reached|The postcondition.*|.*is violated.*)', out)
     if m:
         res.violation = m.group(1).strip()
         res.finished = True
@@ -237,6 +237,12 @@ def _parse_output(res):
     # coverage lines: <Action line 10, col 1 to line 12, col 30 of module X>: 12:34
     for m in re.finditer(r'<(\w+) line \d+, col \d+ to line \d+, col \d+ of module (\w+)>: (\d+):(\d+)', out):
         res.coverage[m.group(1)] = (int(m.group(3)), int(m.group(4)))
+
+
+def trace_summary(res, var="ev", maxlen=60):
+    """compact view of a TLC error trace: the values of one variable along the behaviour"""
+    vals = re.findall(r'/\\ %s = (.*)' % re.escape(var), res.out)
+    return vals[-maxlen:]
 
 
 def cfg_write(path, text):
@@ -297,7 +303,7 @@ def simulate(spec, cfg, num, depth, seed=0, timeout=600, env=None, workers=1):
     for f in sorted(glob.glob(pref + "*")):
         txt = open(f).read()
         beh = []
-        for m in re.finditer(r'\\\* <?([A-Za-z_0-9 ]+?)(?: line[^\n]*)?>?\s*\nSTATE_\d+ ==\s*\n(.*?)(?=\n\s*\n|\Z)', txt, re.S):
+        for m in re.finditer(r'\\\* <([A-Za-z_0-9]+)[^\n]*>\s*\nSTATE_\d+ ==\s*\n(.*?)(?=\n\s*\n|\Z)', txt, re.S):
             act = m.group(1).strip()
             beh.append((act, parse_state(m.group(2))))
         if beh:
